@@ -1,5 +1,5 @@
 (* C05 — Explicit Euler step equals states + dt * rhs. *)
-From GX Require Import Base Expr Topo Ode Target Sem Codegen Load Valid MirrorValid Run Carriers Theory Examples.
+From GX Require Import Base Expr Topo Ode Target Sem Codegen Load Valid MirrorValid LoadWf Run Carriers Theory Examples.
 From Coq Require Import QArith.
 Close Scope Q_scope.
 Open Scope string_scope.
@@ -58,6 +58,26 @@ Theorem C05_mirror_euler_is_correct_for_every_well_formed_model :
                /\ nth_error out i = Some (add N sv (mul N (in_dt inp) fv)).
 Proof. exact @mirror_euler_correct. Qed.
 Print Assumptions C05_mirror_euler_is_correct_for_every_well_formed_model.
+
+(* and from the text: every accepted item list whose names avoid dt, t, time compiles to such a step *)
+Theorem C05_accepted_text_compiles_to_a_correct_euler_step :
+  forall (T : Type) (N : NumOps T) items o ru name order ss f (inp : inputs T),
+    CommOps N ->
+    load items = Ok o ->
+    (forall x, In x (all_names o) -> resv true x = false) ->
+    sorted_states o = Some ss ->
+    gen_euler o ru name order = Some f ->
+    sizes_ok o ss inp ->
+    exists out,
+      exec N f true inp = Some out
+      /\ length out = length ss
+      /\ forall i s, nth_error ss i = Some s ->
+           exists sv fv,
+             nth_error (in_states inp) i = Some sv
+             /\ Sem N o ss inp true (deriv_name_of s) fv
+             /\ nth_error out i = Some (add N sv (mul N (in_dt inp) fv)).
+Proof. exact @accepted_text_compiles_to_a_correct_euler_step. Qed.
+Print Assumptions C05_accepted_text_compiles_to_a_correct_euler_step.
 
 (* non-vacuity *)
 Example C05_example :
